@@ -11,6 +11,8 @@ from pyvc.values import VInt, VBool, VSeq, VNone, to_val
 S.to_val = to_val
 from pyvc.values import VStr as _VStr
 S.VStr = _VStr
+from pyvc.spec import OpenOk as _OpenOk, Open as _Open
+S.OpenOk, S.Open = _OpenOk, _Open
 from contracts.c12_cbc_check import spec_ok_vals
 
 R = 'tlslite/recordlayer.py:'
@@ -462,3 +464,94 @@ REG.note('C02', 'not_built', 'AESGCM/AESCCM/CHACHA20_POLY1305.open tag compariso
                              'early-data window; _getNextRecordFromSocket error->alert mapping; epoch separation frame scan')
 REG.note('C02', 'assumptions', 'step from "tag equals MAC/AEAD tag over (receiver counter, type, version, length, body) under the read key" to '
                                '"the peer sent exactly this record next" is MAC/AEAD unforgeability: assumed, not proved')
+
+
+# --- RecordLayer._decryptAndUnseal: what an accepted AEAD record is bound to (C02) ------------
+from tlslite.errors import TLSIllegalParameterException
+from pyvc import smt as _smt
+
+
+def _xor_seq(a, b):
+    return VSeq(_smt.s_xor(a.t, b.t), 'byte')
+
+
+def _aead_spec(ns, variant):
+    """(nonce, aad, ciphertext) the RFCs prescribe for the receiver's NEXT record:
+    both derived from the receiver's own sequence number."""
+    rs = _rs(ns)
+    seq = S.be(ns.f(rs, 'seqnum'), 8)
+    fixed = ns.f(rs, 'fixedNonce')
+    tl = ns.f(ns.f(rs, 'encContext'), 'tagLength')
+    buf = ns.buf
+    n = S.len_(buf)
+    v = ns.f(ns.self, '_version')
+    if variant == 'aesgcm12':          # RFC 5288: nonce = salt || explicit part carried in the record
+        ct = buf[8:n]
+        plen = n - 8 - tl
+        nonce = S.cat(fixed, buf[0:8])
+        aad = S.cat(seq, S.byte(ns.f(ns.header, 'type')), S.byte(v[0]), S.byte(v[1]), S.byte(plen / 256), S.byte(plen % 256))
+    elif variant == 'chacha12':        # RFC 7905: nonce = (0^4 || seq) xor iv
+        ct = buf
+        plen = n - tl
+        nonce = _xor_seq(S.cat(S.rep(0, 4), seq), fixed)
+        aad = S.cat(seq, S.byte(ns.f(ns.header, 'type')), S.byte(v[0]), S.byte(v[1]), S.byte(plen / 256), S.byte(plen % 256))
+    else:                              # RFC 8446 5.2/5.3: nonce = (0^4 || seq) xor iv, aad = record header
+        ct = buf
+        nonce = _xor_seq(S.cat(S.rep(0, 4), seq), fixed)
+        aad = S.cat(S.byte(23), S.byte(3), S.byte(3), S.byte(n / 256), S.byte(n % 256))
+    return nonce, aad, ct
+
+
+def _aead_contract(variant, cname, nonce_len, tls13):
+    def requires(ns):
+        rs = _rs(ns)
+        enc = ns.f(rs, 'encContext')
+        base = [S.len_(ns.f(rs, 'fixedNonce')) == nonce_len, ns.f(enc, 'tagLength') >= 1, ns.f(enc, 'tagLength') <= 16,
+                S.len_(ns.buf) < 65536, ns.f(ns.header, 'type') >= 0, ns.f(ns.header, 'type') < 256,
+                ns.f(ns.header, 'length') >= 0, ns.f(ns.header, 'length') < 65536,
+                ns.f(ns.header, 'version')[0] >= 0, ns.f(ns.header, 'version')[0] < 256,
+                ns.f(ns.header, 'version')[1] >= 0, ns.f(ns.header, 'version')[1] < 256]
+        if tls13:
+            base += [ns.f(ns.self, '_version') == (3, 4), ns.f(ns.self, '_tls13record')]
+        else:
+            base += [ns.f(ns.self, '_version') == (3, 3)]
+        return S.And(*base)
+
+    def accepted(ns):
+        rs = _rs(ns)
+        enc = ns.f(rs, 'encContext')
+        nonce, aad, ct = _aead_spec(ns, variant)
+        k = S.to_val(ns.f(enc, 'key'))
+        ok = VBool(S.OpenOk(k, nonce.t, ct.t, aad.t))
+        pt = VSeq(S.Open(k, nonce.t, ct.t, aad.t), 'byte')
+        extra = []
+        if tls13:
+            extra = [ns.f(ns.header, 'type') == 23, ns.f(ns.header, 'version') == (3, 3),
+                     ns.f(ns.header, 'length') == S.len_(ns.buf)]
+        if variant == 'aesgcm12':
+            extra.append(S.len_(ns.buf) >= 8)
+        extra.append(S.len_(ct) >= ns.f(enc, 'tagLength'))       # a ciphertext shorter than the tag is publicly invalid
+        return S.And(ok, *extra), pt
+
+    def params():
+        rd = conn_state(mac=False, cipher='aead')
+        rd.kw['fields']['encContext'] = T.cipher('aead', cname=cname)
+        return {'self': record_layer(read=rd),
+                'header': T.obj(MSG.RecordHeader3, type=T.int(), version=T.tuple(T.int(), T.int()), length=T.int()),
+                'buf': T.bytes()}
+    raises = {TLSBadRecordMAC: lambda ns: S.Not(accepted(ns)[0])}
+    if tls13:
+        raises[TLSUnexpectedMessage] = ('iff', lambda ns: ns.f(ns.header, 'type') != 23)
+        raises[TLSIllegalParameterException] = lambda ns: ns.f(ns.header, 'version') != (3, 3)
+    contract(R + 'RecordLayer._decryptAndUnseal', name='RecordLayer._decryptAndUnseal[%s]' % variant,
+             params=params(), requires=requires, result=T.bytes(), raises=raises,
+             ensures=lambda ns: S.And(accepted(ns.old)[0], ns.result == accepted(ns.old)[1],
+                                      ns.f(_rs(ns), 'seqnum') == ns.old.f(_rs(ns.old), 'seqnum') + 1),
+             prop=('C02',),
+             doc='an AEAD record is returned only if open() succeeded under the nonce and additional data derived from the '
+                 'RECEIVER\'s own sequence number (and, in TLS 1.3, the outer header is application_data/(3,3)/exact length)')
+
+
+_aead_contract('aesgcm12', 'aes128gcm', 4, False)
+_aead_contract('chacha12', 'chacha20-poly1305', 12, False)
+_aead_contract('tls13', 'aes256gcm', 12, True)
